@@ -105,10 +105,13 @@ theorem C04_scalar_param_roundtrip {sig : List Row} {op : Str} {p : Str × PVal}
   | strs n l hn hl => exact ParamRT.strs C emb _ hn hl
   | classname n c hn hc => exact ParamRT.classname C emb _ hn hc
 
-/-- **scalar parameters, no hypothesis.**  Booleans (whatever the parameter is called: the four names
+/-- **scalar parameters, no hypothesis about objects.**  Partial only in this respect: string values must
+    be `StableText` (XML characters, no CR) — the CR class is the open finding C04-KF3 / C01-KF1, see the
+    witness `C04_string_param_roundtrip_fails_at_CR` below; the full statement (every Python string) is false.
+    Booleans (whatever the parameter is called: the four names
     `parse_iparamvalue` coerces and the two it does not), integers, strings, string lists with NULL
     entries and class names arrive with equal values; None-valued parameters are omitted. -/
-theorem C04_server_sees_scalars (C : DecCodec) (depth : Nat) (sig : List Row) (op ns : Str) (ps : Params)
+theorem C04_server_sees_scalars_partial (C : DecCodec) (depth : Nat) (sig : List Row) (op ns : Str) (ps : Params)
     (hop : StableAttr op) (hns : StableAttr ns) (h : ∀ p ∈ dropNone ps, ScalarParam sig op p) :
     ∃ t, wireTree (requestXml C.toCodec op ns ps) = some t ∧
       serverSees C depth sig t = .ok ("1001".toList, { op := op, ns := ns, params := dropNone ps }) :=
@@ -319,14 +322,14 @@ theorem C04_method_target_namespace (dflt : Str) (c : Str) (h : Option Str) (ks 
 example : StableAttr "EnumerateClassNames".toList ∧ StableAttr "root/cimv2".toList ∧ StableText " a&b<c> \n".toList := by
   refine ⟨⟨?_, ?_⟩, ⟨?_, ?_⟩, ⟨?_, ?_⟩⟩ <;> decide
 
-/-- a concrete request through `C04_server_sees_scalars`: one parameter of every scalar kind -/
+/-- a concrete request through `C04_server_sees_scalars_partial`: one parameter of every scalar kind -/
 example (C : DecCodec) : ∃ t, wireTree (requestXml C.toCodec "EnumerateInstances".toList "root/a".toList
       [("ClassName".toList, some (.obj (.path (.cls "C".toList none none)))), ("LocalOnly".toList, none),
        ("DeepInheritance".toList, some (.bool false)), ("PropertyList".toList, some (.strs [some "p".toList, none]))]) = some t ∧
     serverSees C 1 rows t = .ok ("1001".toList, Seen.mk "EnumerateInstances".toList "root/a".toList
       [("ClassName".toList, .obj (.path (.cls "C".toList none none))),
        ("DeepInheritance".toList, .bool false), ("PropertyList".toList, .strs [some "p".toList, none])]) := by
-  apply C04_server_sees_scalars C 1 rows
+  apply C04_server_sees_scalars_partial C 1 rows
   · constructor <;> decide
   · constructor <;> decide
   · intro p hp
